@@ -20,7 +20,8 @@ def obligation(name):
 class PathResult:
     """what an obligation function returns for one path"""
 
-    def __init__(self, asserts, world=None, info=None, kf=None):
+    def __init__(self, asserts, world=None, info=None, kf=None, replayer=None):
+        self.replayer = replayer      # callable(Decoder) -> replay script, for obligations without a SymWorld
         self.asserts = asserts        # name -> z3 Bool term | python bool
         self.world = world            # SymWorld (for replay scripts), may be None
         self.info = info or {}
@@ -111,9 +112,21 @@ def _explore_chunk(args):
                                     cex["script"] = concretise_script(res.world, m1)
                                 except Exception as ex:     # noqa
                                     cex["script_error"] = repr(ex)
+                            elif res.replayer is not None:
+                                from .engine import Decoder
+                                try:
+                                    cex["script"] = res.replayer(Decoder(m1))
+                                except Exception as ex:     # noqa
+                                    cex["script_error"] = repr(ex)
                             rec["failed"].append(cex)
                             done.add(n)
             # witness for sampling / replay validation of passing paths
+            if res.world is None and res.replayer is not None and not rec["failed"] and _want_witness(e.trace):
+                from .engine import Decoder
+                try:
+                    rec["witness"] = res.replayer(Decoder(e.model))
+                except Exception as ex:   # noqa
+                    rec["witness_error"] = repr(ex)
             if res.world is not None and not rec["failed"] and _want_witness(e.trace):
                 from .real import concretise_script
                 wm = nicer_model(e, [], e.model)
